@@ -15,12 +15,12 @@ def parse_roots():
     return [int(v, 0) for v in vals]
 
 
-def make_inputs(wd, seed, maxd, maxcols=4):
+def make_inputs(wd, seed, maxd, maxcols=8):
     rng = vlib.Rng(seed ^ 0x177)
     X = []
     for d in range(maxd + 1):
         X.append([rng.word() for _ in range(1 << d)])
-    M = [1, 3, P - 2, 0x123456789ABCDEF][:maxcols]
+    M = [1, 3, P - 2, 0x123456789ABCDEF, 7, 2**32, P - 1, 0xFFFFFFFF][:maxcols]
     W = parse_roots()
     with open(os.path.join(wd, 'ntt_inputs.txt'), 'w') as f:
         for d, xs in enumerate(X):
@@ -53,6 +53,16 @@ def enum_cases(calls, smax, tier, seed, sub=1):
                         cid += 1
                         nth = [1, 2, 3, 8][(k // 3) % 4]
                         cases.append((cid, call, S, d, e, nc, nph, nb, dst, buf, nth))
+                    # wider matrices with uneven column blocks (ncols % nblock != 0, 2*ceil(ncols/nblock) <= ncols, ...)
+                    if S <= 3:
+                        for nc, nb in [(5, 2), (5, 3), (5, 4), (8, 3), (8, 5), (7, 2), (4, 3), (4, 2), (6, 4)]:
+                            for nph in sorted(set([1, 2, 3, d + 1])):
+                                for dst, buf in itertools.product(['same', 'other', 'null'], ['null', 'caller']):
+                                    if call == 'ext' and dst == 'null':
+                                        continue
+                                    k += 1
+                                    cid += 1
+                                    cases.append((cid, call, S, d, e, nc, nph, nb, dst, buf, [1, 2, 3, 8][k % 4]))
                     # zero columns: a no-op for every mode
                     for dst in ['same', 'other']:
                         cid += 1
@@ -166,7 +176,22 @@ def run_property(pid, calls, tier, seed, replay_path, doc_assumptions=()):
             ck.violation(key, '%d configurations of this class rejected; e.g. %s' % (len(items), '; '.join(k for k, _, _ in items[:4])),
                          dict(cases=[list(c) for _, c, _ in items[:20]]))
         else:
-            ck.note('rejection not reproduced on re-run: ' + key)
+            # not reproducible in isolation: re-run the whole process history up to and including the case
+            pos = [i for i, c in enumerate(cases) if c[0] == case[0]][0]
+            write_cases(c2, cases[:pos + 1])
+            if os.path.exists(t2):
+                os.remove(t2)
+            sh([exe, os.path.join(wd, 'ntt_inputs.txt'), c2, t2], timeout=3000)
+            last = [ln for ln in open(t2).read().split('\n') if ln.strip()][-1:]
+            t3 = os.path.join(wd, 'confirm_last.ndjson')
+            open(t3, 'w').write('\n'.join(last) + '\n')
+            v3 = validate_trace(wd, 'Trace_NTT', 'Trace_NTT.cfg', t3, env={'NTTIN': os.path.join(wd, 'ntt_inputs.json')}, nsplit=1)
+            if v3['rejected']:
+                ck.violation(key + ' (history-dependent: only after the preceding calls in the same process)',
+                             '%d configurations of this class rejected; the case is correct in a fresh process but wrong after the recorded prefix of %d calls' % (len(items), pos),
+                             dict(cases=[list(c) for c in cases[:pos + 1]]))
+            else:
+                ck.note('rejection not reproduced on re-run (neither alone nor after its process history): ' + key)
     ck.cov['cases'] = len(cases)
     ck.cov['exhaustive'] = True
     ck.cov['exhaustive_scope'] = 'every (S,d[,x],ncols in 1..3,nphase,nblock,dst,buf) tuple with domain <= %d%s' % (1 << smax, ' (largest domain subsampled 1/3 in the quick tier)' if tier == 'quick' else '')
